@@ -321,7 +321,12 @@ def check(idx: Index, rep: Report, tier: str) -> str:
     if (not bm_stores and not bulk) or not clones:
         raise AnalysisError(f"{f.fq}: block registration or op.clone not found")
     reg_loop = [w for w in walk_local(f.node) if isinstance(w, ast.For) and any(s in w.body for s in bm_stores)]
-    if not bulk and (not reg_loop or unparse(reg_loop[0].iter) != "self.blocks"):
+    def _over_all_blocks(it: ast.AST) -> bool:
+        if unparse(it) == "self.blocks":
+            return True
+        return isinstance(it, ast.Call) and unparse(it.func) in ("zip", "enumerate") and bool(it.args) and unparse(it.args[0]) == "self.blocks"
+
+    if not bulk and (not reg_loop or not _over_all_blocks(reg_loop[0].iter)):
         r3.fail(f.fq + ":blocks", Finding("C02.R3", f.fq, "blocks-registration", "block_mapper is not filled by a loop over all self.blocks", f.loc))
     else:
         head = cfg.node_of(bulk[0]) if bulk else cfg.node_of(reg_loop[0])
